@@ -40,7 +40,8 @@ def register(R):
         params={"total": "int", "ratios": "list[int]", "minimums": "Optional[list[int]]"},
         returns="list[int]", pure=True,
         requires=[
-            "total >= 0",
+            # (no sign condition on `total`: Table._calculate_column_widths passes a negative total when the table is already
+            # wider than the width it is given; every share is then its minimum, 0 without minimums)
             "all(ratios[i] >= 0 for i in range(len(ratios)))",
             "implies(minimums is not None, len(minimums) == len(ratios))",
             # the code's own leading assert (sum of the masked ratios is positive) is a precondition
@@ -50,7 +51,7 @@ def register(R):
         ensures=[
             "len(result) == len(ratios)",
             "lsum(result) >= total",
-            "implies(minimums is None, lsum(result) == total)",
+            "implies(minimums is None and total >= 0, lsum(result) == total)",
             "implies(minimums is None, all(result[i] >= 0 for i in range(len(result))))",
             "implies(minimums is not None and len(minimums) > 0, all(result[i] >= minimums[i] for i in range(len(result))))",
         ],
@@ -62,9 +63,9 @@ def register(R):
                     "len(distributed_total) == i",
                     "total_ratio == lsum(ratios[i:])",
                     "lsum(distributed_total) + total_remaining == total",
-                    "implies(old(minimums) is None, total_remaining >= 0)",
+                    "implies(old(minimums) is None and total >= 0, total_remaining >= 0)",
                     "implies(old(minimums) is None, all(distributed_total[j] >= 0 for j in range(i)))",
-                    "implies(old(minimums) is None and i > 0 and total_ratio == 0, total_remaining == 0)",
+                    "implies(old(minimums) is None and total >= 0 and i > 0 and total_ratio == 0, total_remaining == 0)",
                     "implies(i > 0 and total_ratio == 0, total_remaining <= 0)",
                     "implies(i == 0, total_ratio > 0)",
                     "all(distributed_total[j] >= _minimums[j] for j in range(i))",
